@@ -273,7 +273,7 @@ pub struct Stats {
 }
 
 fn wait_released(live: &LiveNode, db: &str, keys: &[String], base_conn: usize) -> Option<String> {
-    let deadline = Instant::now() + Duration::from_secs(10);
+    let deadline = Instant::now() + Duration::from_secs(5);
     loop {
         let (conn, leftover) = {
             let map = live.dbs.map.read().unwrap();
@@ -355,6 +355,8 @@ pub fn run(tier: &str) -> i32 {
             sc.spawn(move || {
                 let mut rng = Rng::new(seed() * 977 + w as u64);
                 let dbname = format!("h{}", w);
+                let mut base_conn = base_conn;
+                let mut release_failures = 0;
                 loop {
                     let i = next.fetch_add(1, std::sync::atomic::Ordering::SeqCst);
                     if i >= bodies.len() {
@@ -457,6 +459,13 @@ pub fn run(tier: &str) -> i32 {
                     }
                     if let Some(r) = rel {
                         v.report(json!({"check": "http", "problem": r}), json!({"body": body, "watched": watched}));
+                        // what leaked stays leaked: re-base, so that the next request is judged on its own, and give up on a
+                        // node that keeps leaking (every wait costs its full time-out)
+                        base_conn = { live.dbs.map.read().unwrap().get(&dbname).map(|d| d.connections_count()).unwrap_or(base_conn) };
+                        release_failures += 1;
+                        if release_failures >= 5 {
+                            break;
+                        }
                     }
                 }
             });
